@@ -295,12 +295,24 @@ pub fn native_ints(cfg: &RunCfg, extra: &mut Extra) {
                     judged += 1;
                     chk!("u-v", (vu - vv).into(), [sub[0], sub[1], sub[2], sub[3]]);
                     chk!("sub_element_wise", vu.sub_element_wise(vv).into(), [sub[0], sub[1], sub[2], sub[3]]);
+                    let mut x = vu;
+                    x -= vv;
+                    chk!("u-=v", x.into(), [sub[0], sub[1], sub[2], sub[3]]);
+                    let mut x = vu;
+                    x.sub_assign_element_wise(vv);
+                    chk!("sub_assign_element_wise(v)", x.into(), [sub[0], sub[1], sub[2], sub[3]]);
                 } else {
                     skipped += 1;
                 }
                 let mul: Vec<i128> = (0..4).map(|k| u[k] * a).collect();
                 if mul.iter().all(|&x| fits(x)) && fits(a) {
                     judged += 1;
+                    let mut x = vu;
+                    x *= t(a);
+                    chk!("u*=a", x.into(), [mul[0], mul[1], mul[2], mul[3]]);
+                    let mut x = vu;
+                    x.mul_assign_element_wise(t(a));
+                    chk!("mul_assign_element_wise(s)", x.into(), [mul[0], mul[1], mul[2], mul[3]]);
                     chk!("u*a", (vu * t(a)).into(), [mul[0], mul[1], mul[2], mul[3]]);
                     chk!("mul_element_wise(s)", vu.mul_element_wise(t(a)).into(), [mul[0], mul[1], mul[2], mul[3]]);
                 }
@@ -309,6 +321,41 @@ pub fn native_ints(cfg: &RunCfg, extra: &mut Extra) {
                     // Rust integer division truncates toward zero, like i128
                     chk!("u/a", (vu / t(a)).into(), [u[0] / a, u[1] / a, u[2] / a, u[3] / a]);
                     chk!("u%a", (vu % t(a)).into(), [u[0] % a, u[1] % a, u[2] % a, u[3] % a]);
+                    let mut x = vu;
+                    x /= t(a);
+                    chk!("u/=a", x.into(), [u[0] / a, u[1] / a, u[2] / a, u[3] / a]);
+                    let mut x = vu;
+                    x %= t(a);
+                    chk!("u%=a", x.into(), [u[0] % a, u[1] % a, u[2] % a, u[3] % a]);
+                    chk!("div_element_wise(s)", vu.div_element_wise(t(a)).into(), [u[0] / a, u[1] / a, u[2] / a, u[3] / a]);
+                    chk!("rem_element_wise(s)", vu.rem_element_wise(t(a)).into(), [u[0] % a, u[1] % a, u[2] % a, u[3] % a]);
+                    let mut x = vu;
+                    x.div_assign_element_wise(t(a));
+                    chk!("div_assign_element_wise(s)", x.into(), [u[0] / a, u[1] / a, u[2] / a, u[3] / a]);
+                    let mut x = vu;
+                    x.rem_assign_element_wise(t(a));
+                    chk!("rem_assign_element_wise(s)", x.into(), [u[0] % a, u[1] % a, u[2] % a, u[3] % a]);
+                    // lower dimensions share the macro but are separate instantiations
+                    let mut x3 = vu.truncate();
+                    x3 /= t(a);
+                    let g3: [$T; 3] = x3.into();
+                    if g3.iter().zip(u.iter()).any(|(g, e)| *g as i128 != e / a) && bad.is_none() {
+                        bad = Some("Vector3 u/=a".into());
+                    }
+                    let mut x2 = vu.truncate().truncate();
+                    x2 /= t(a);
+                    let g2: [$T; 2] = x2.into();
+                    if g2.iter().zip(u.iter()).any(|(g, e)| *g as i128 != e / a) && bad.is_none() {
+                        bad = Some("Vector2 u/=a".into());
+                    }
+                    // division by a vector with non-zero components
+                    if v.iter().all(|&x| x != 0 && x != -1) {
+                        chk!("div_element_wise(v)", vu.div_element_wise(vv).into(), [u[0] / v[0], u[1] / v[1], u[2] / v[2], u[3] / v[3]]);
+                        chk!("rem_element_wise(v)", vu.rem_element_wise(vv).into(), [u[0] % v[0], u[1] % v[1], u[2] % v[2], u[3] % v[3]]);
+                        let mut x = vu;
+                        x.div_assign_element_wise(vv);
+                        chk!("div_assign_element_wise(v)", x.into(), [u[0] / v[0], u[1] / v[1], u[2] / v[2], u[3] / v[3]]);
+                    }
                 }
                 let prods: Vec<i128> = (0..4).map(|k| u[k] * v[k]).collect();
                 let abs_sum: i128 = prods.iter().map(|x| x.abs()).sum();
